@@ -284,13 +284,18 @@ pub fn c05(tier: Tier) -> Vec<Case> {
 /// prefix the body of every normal rule with its own probe (an extern rule that consumes nothing and
 /// records the offset at which it was called)
 pub fn with_probes(g: &Grammar) -> Grammar {
+    with_probes_named(g, "probe")
+}
+
+/// `stem` = "probe" (plain) or "probex" (functions that take the user context)
+pub fn with_probes_named(g: &Grammar, stem: &str) -> Grammar {
     let mut rules = Vec::new();
     let mut probes = Vec::new();
     let mut i = 0;
     for r in &g.rules {
         if let RuleDef::Normal(body) = &r.def {
             let pname = format!("P{i}");
-            let func = format!("hrt::user::probe{i}");
+            let func = format!("hrt::user::{stem}{i}");
             probes.push(Rule::ext(&pname, &func, Some("hrt::user::U")));
             let nb = match body {
                 Expr::Seq(parts) => {
@@ -383,6 +388,28 @@ pub fn c06(tier: Tier) -> Vec<Case> {
             ],
         };
         b.add("memo-probes/long-inputs", with_probes(&g), InputSpec::List(inputs));
+    }
+    // memoized rules that fail because a check function says no, in parsers built with a user context type
+    // (and without one): the verdict of a pure function is cached like any other failure
+    {
+        let inputs = memo_inputs(tier);
+        let step = if tier == Tier::Quick { 2 } else { 1 };
+        for (g, names) in memo_bases(Tier::Quick).into_iter().step_by(step) {
+            for which in ["A", "B"] {
+                for ctxv in [true, false] {
+                    let mut g2 = g.clone();
+                    if let Some(r) = g2.rules.iter_mut().find(|r| r.name == which) {
+                        r.directives.insert(0, Directive::Check(vec!["hrt".into(), "user".into(), if ctxv { "chkx_nob" } else { "chk_nob" }.into()]));
+                    }
+                    for mask in [7u32, 3, 6] {
+                        let gv = with_probes_named(&with_memo(&g2, &names, mask), if ctxv { "probex" } else { "probe" });
+                        if b.add(if ctxv { "memo-probes/with-check/ctx" } else { "memo-probes/with-check" }, gv, inputs.clone()) {
+                            b.last().user_ctx = ctxv;
+                        }
+                    }
+                }
+            }
+        }
     }
     let inputs = memo_inputs(tier);
     for (g, names) in memo_bases(tier) {
@@ -482,10 +509,26 @@ pub fn c07(tier: Tier) -> Vec<Case> {
                         continue;
                     }
                     let fam = if base_first { "leftrec/usual/base-first" } else { "leftrec/usual/recursive-first" };
-                    if b.add(fam, g, inputs_a.clone()) {
-                        // the closed form knows bases made of tokens only (not the guarded one)
-                        let guarded = bs.contains(&3);
-                        b.last().note = if base_first { "base-first".into() } else if guarded { "recursive-first".into() } else { "recursive-first closed-form".into() };
+                    // the closed form knows bases made of tokens only (not the guarded one)
+                    let guarded = bs.contains(&3);
+                    let note: String = if base_first { "base-first".into() } else if guarded { "recursive-first".into() } else { "recursive-first closed-form".into() };
+                    // the redundant but legal combination: @memoize written before / after @leftrec on the same rule
+                    let mut variants: Vec<(&str, Grammar)> = vec![(fam, g.clone())];
+                    if ts.len() == 1 && bs.len() == 1 {
+                        for front in [true, false] {
+                            let mut g2 = g.clone();
+                            if front {
+                                g2.rules[1].directives.insert(0, Directive::Memoize);
+                            } else {
+                                g2.rules[1].directives.push(Directive::Memoize);
+                            }
+                            variants.push(("leftrec/usual/with-memoize", g2));
+                        }
+                    }
+                    for (fam, g) in variants {
+                        if b.add(fam, g, inputs_a.clone()) {
+                            b.last().note = note.clone();
+                        }
                     }
                 }
             }
@@ -654,6 +697,28 @@ pub fn c10(tier: Tier) -> Vec<Case> {
                 let g = root_grammar(dirs(noskip, &[Directive::Export, Directive::Position]), e.clone(), &leaves);
                 if wf::well_formed(&g) {
                     b.add("errors/long-inputs", g, spec.clone());
+                }
+            }
+        }
+    }
+    // closures of a lone token at the end of a skipping rule whose caller does not skip: the iteration that ends the
+    // closure fails behind the whitespace it skipped, further right than anything the caller tries next
+    {
+        let inputs = InputSpec::Strings { alphabet: vec!['c', 'b', ' ', ';'], max_len: if tier == Tier::Quick { 6 } else { 7 } };
+        let tails: Vec<Expr> = vec![star(lit("b")), star(range('b', 'b')), plus(lit("b")), star(lit("bb")), star(choice(vec![lit("b"), lit(";")])), opt(lit("b")), star(ilit("b"))];
+        for t in &tails {
+            for t_kind in 0..3 {
+                let td = match t_kind {
+                    0 => vec![],
+                    1 => vec![Directive::Position],
+                    _ => vec![Directive::Check(vec!["hrt".into(), "user".into(), "chk_never".into()])],
+                };
+                let tr = Rule::normal("T", td, seq(vec![lit("c"), t.clone()]));
+                for root in [seq(vec![field("t", "T"), lit(";")]), seq(vec![field("t", "T"), opt(field("u", "T")), Expr::Eoi]), star(seq(vec![field("t", "T"), lit(";")]))] {
+                    let g = root_grammar(vec![Directive::Export, Directive::NoSkipWs], root, &[tr.clone()]);
+                    if wf::well_formed(&g) {
+                        b.add("errors/closure-tail", g, inputs.clone());
+                    }
                 }
             }
         }
@@ -1032,7 +1097,7 @@ pub fn c19(tier: Tier) -> Vec<Case> {
         ];
         for (gi, g) in gs.into_iter().enumerate() {
             // the left-recursive grammar clones a tree that deepens with every item: quadratic, keep it shorter
-            let inputs: Vec<String> = if gi == 2 { inputs.iter().filter(|s| s.len() <= 6000).cloned().collect() } else { inputs.clone() };
+            let inputs: Vec<String> = if gi == 2 { inputs.iter().filter(|s| s.len() <= 2600).cloned().collect() } else { inputs.clone() };
             if b.add("trace/long", g, InputSpec::List(inputs.clone())) {
                 b.last().note = "indented-all".into();
             }
@@ -1062,7 +1127,10 @@ pub fn c19(tier: Tier) -> Vec<Case> {
                 }
             }
         }
-        b.add(&format!("trace/{}", c.family), g, c.inputs.clone());
+        if b.add(&format!("trace/{}", c.family), g, c.inputs.clone()) {
+            // under parse_with_trace every check / extern function of these grammars first runs a traced parse itself
+            b.last().note = "indented-all nested-traced".into();
+        }
     }
     b.cases
 }
@@ -1193,6 +1261,18 @@ pub fn c20(tier: Tier) -> Vec<Case> {
         if b.add("pure/memo-rare-hit", g2, InputSpec::List(inputs2)) {
             b.last().note = "no-reference".into();
         }
+    }
+    // a left-recursive rule that grows several times (longer parses for the preemption-bounded schedule exploration)
+    {
+        let g = Grammar {
+            rules: vec![
+                Rule::normal("Root", vec![Directive::Export, Directive::NoSkipWs], seq(vec![field("e", "E"), Expr::Eoi])),
+                Rule::normal("E", vec![Directive::Leftrec, Directive::NoSkipWs], choice(vec![seq(vec![bfield("l", "E"), lit("+"), field("r", "N")]), field("n", "N")])),
+                n_rule(),
+            ],
+        };
+        let inputs: Vec<String> = ["n", "n+n", "n+n+n", "n+n+n+n", "n+", "+n", "nn"].iter().map(|s| s.to_string()).collect();
+        b.add("pure/leftrec-long", g, InputSpec::List(inputs));
     }
     // a checked @char rule fed characters that agree in their low byte and differ in the check's verdict
     {
